@@ -4,6 +4,10 @@ from verifkit import read_lines
 
 REQUIRED = [
     "DaeVerif.C14.Props.members_exact",
+    "DaeVerif.C14.Props.accepted_result_is_meaning",
+    "DaeVerif.C14.Props.filterHit_computes_line",
+    "DaeVerif.C14.Props.value_semantics",
+    "DaeVerif.C14.Props.atoi_range",
     "DaeVerif.C14.Props.member_iff",
     "DaeVerif.C14.Props.members_once_in_pool_order",
     "DaeVerif.C14.Props.member_annotation_of_first_line",
@@ -82,6 +86,22 @@ def run(ctx):
         ctx.report(f"implementation differs from proved model at line {ln}: impl `{im[:200]}` model `{mo[:200]}`",
                    {"stream": "c14", "line": ln, "op": op, "impl": im, "model": mo,
                     "replay": "VERIF_SEED=%d ./check C14 %s" % (ctx.seed, ctx.tier)})
+    # the group loop of control.NewControlPlane cannot be executed in isolation (it sits in the middle
+    # of the BPF-loading constructor); the harness replicates it.  Record (never fail on) whether the
+    # three calls still appear in the replicated order, so that a reader of the evidence knows.
+    try:
+        from verifkit import REPO
+        src = open(os.path.join(REPO, "control", "control_plane.go"), encoding="utf-8").read()
+        pins = ["outbound.NewDialerSelectionPolicyFromGroupParam(&group)",
+                "dialerSet.FilterAndAnnotate(group.Filter, group.FilterAnnotation)",
+                "outbound.NewDialerGroup(finalOption, group.Name, dialers, annos, *policy"]
+        pos = [src.find(p) for p in pins]
+        ctx.cov["control_plane_glue_as_replicated"] = all(p >= 0 for p in pos) and pos == sorted(pos)
+        if not ctx.cov["control_plane_glue_as_replicated"]:
+            ctx.say("NOTE C14: control_plane.go group loop no longer matches the sequence replicated by the harness "
+                    "(policy -> FilterAndAnnotate -> NewDialerGroup); re-audit c14Group in the harness")
+    except OSError:
+        ctx.cov["control_plane_glue_as_replicated"] = None
     stats = json.load(open(os.path.join(ctx.out, "c14.stats.json")))
     ctx.samples = stats["samples"][:8] + [x[:400] for x in o[:2]]
     ctx.cov["input_distribution"] = stats["counters"]
